@@ -13,7 +13,7 @@ import IronCalc.Book.Sheets
   a LAMBDA are inputs (`validIdent`, the formula tree), decided by C22/C09's mechanisms.
 -/
 namespace IronCalc.Book
-open IronCalc.Formula
+open IronCalc.RefTree
 
 inductive NameErr where
   | badIdent | badScope | dnExists | dnNotFound | badIndex
